@@ -350,6 +350,26 @@ def probe_control():
     return out
 
 
+def probe_allocation():
+    out = {}
+    with contextlib.redirect_stdout(io.StringIO()):
+        import casadi as ca
+        import cyecca.models.rdd2 as rdd2
+        f = rdd2.derive_control_allocation()["f_alloc"]
+        demands = [(20.0, 0.25, 0.016, 8.5e-6, 30.0, [0.3, -0.2, 0.05]), (20.0, 0.25, 0.016, 8.5e-6, 75.0, [2.0, 1.0, -0.1]), (4.0, 1.0, 1.0, 1.0, 1.0, [1.0, -1.0, 1.0]),
+                   (10.0, 0.1, 0.5, 1.0, -5.0, [0.0, 0.0, 0.0]), (1.0, 3.0, 0.5, 2.0, 2.0, [10.0, 10.0, 0.0])]
+        for k, (Fm, l, Cm, Ct, T, M) in enumerate(demands):
+            try:
+                r = f.call({"F_max": Fm, "l": l, "Cm": Cm, "Ct": Ct, "T": T, "M": ca.DM(M)})
+                vals = []
+                for name in sorted(r):
+                    vals.extend(float(v) for v in np.array(ca.densify(r[name]), dtype=float).reshape(-1, order="F"))
+                out["control_allocation#%d" % k] = vals
+            except Exception as ex:
+                out["control_allocation#%d" % k] = "raises %s" % type(ex).__name__
+    return out
+
+
 def probe_quadrotor():
     out = {}
     with contextlib.redirect_stdout(io.StringIO()):
@@ -381,7 +401,7 @@ def probe_quadrotor():
     return out
 
 
-PROBES = dict(lie=probe_lie, setpoints=probe_setpoints, control=probe_control, quadrotor=probe_quadrotor)
+PROBES = dict(lie=probe_lie, setpoints=probe_setpoints, control=probe_control, quadrotor=probe_quadrotor, allocation=probe_allocation)
 
 
 def child_main(probe):
